@@ -45,6 +45,10 @@ fn main() {
         if r.starts_with("backpressure ") && argv[1] == "c06" { let t: Vec<&str> = r.split_whitespace().collect(); let rt = tokio::runtime::Builder::new_multi_thread().worker_threads(2).enable_all().build().unwrap();
             let (got, want, waited) = c20::backpressure_case(&rt, t[1] == "C", t[2].parse().unwrap()); let m = got.len().min(want.len());
             match (0..m).find(|i| got[*i] != want[*i]) { Some(pos) => { println!("FAIL [C06] {waited} writes waited; message #{pos} differs from the frame of write #{pos}"); std::process::exit(1) }, None => { println!("PASS ({waited} waited, {m} compared)"); std::process::exit(if got.len() > want.len() { 1 } else { 0 }) } } }
+        if r.starts_with("ver ") || r.starts_with("sethist ") {
+            let mut st = common::Stats::default(); wire::typed_api_checks(&prop, &a, &mut st);
+            match st.failures.iter().find(|f| f.2 == *r) { Some(f) => { println!("FAIL {}", f.1); std::process::exit(1) }, None => { println!("PASS (typed-API case `{r}` holds)"); std::process::exit(0) } }
+        }
         if r.starts_with("aconv ") { std::process::exit(conv::replay_aconv(&prop, r)); }
         if r.len() > 7 && &r[1..7] == " conv " { std::process::exit(conv::replay_conv(&prop, r)); }
     }
